@@ -322,6 +322,10 @@ func init() { glues["{{.V}}"] = glue_{{.V}}{} }
 func (glue_{{.V}}) HasLexer() bool  { return {{.HasLexer}} }
 func (glue_{{.V}}) HasParser() bool { return {{.HasParser}} }
 
+var shapes_{{.V}} = {{.Shapes}}
+
+func (glue_{{.V}}) Shapes() map[int][]string { return shapes_{{.V}} }
+
 {{if .HasLexer}}
 type lex_{{.V}} struct{ l *lexer_{{.V}}.Lexer }
 
@@ -453,6 +457,7 @@ func main() { harness.Main(glues) }
 		err = glueTmpl.Execute(f, map[string]interface{}{
 			"Mod": DrvModule, "V": v.Name, "Pkg": DrvModule + "/gen/" + dirName(drv.Grammar.ID) + "/" + v.Name,
 			"HasLexer": drv.HasLexer, "HasParser": drv.Grammar.HasSyntax(),
+			"Shapes": fmt.Sprintf("%#v", drv.Grammar.Shapes()),
 		})
 		f.Close()
 		if err != nil {
